@@ -193,6 +193,9 @@ def repr_variants(a):
     out.append(("read-only", r))
     if np.all(a == np.round(a)) and np.all(np.abs(a) < 2 ** 50):
         out.append(("int64", a.astype(np.int64)))
+        if np.all(a >= 0) and np.all(a < 256):
+            out.append(("uint8", a.astype(np.uint8)))
+            out.append(("uint64", a.astype(np.uint64)))
     if np.all(a.astype(np.float32).astype(float) == a):
         out.append(("float32", a.astype(np.float32)))
     return out
@@ -258,6 +261,8 @@ def structured_transforms(rng, n):
     for r, c in enumerate(perm[:k]):
         sel[r, c] = 2.0 if r % 2 else 1.0
     out.append(("scaled selection", sel))
+    out.append(("single row", np.array([[core.snap(rng.uniform(-1, 1), 10) for _ in range(n)]])))
+    out.append(("tall (more orbitals than basis functions)", np.array([[core.snap(rng.uniform(-1, 1), 10) for _ in range(n)] for _ in range(n + 2)])))
     return out + near_identity_transforms(rng, n)
 
 
@@ -500,6 +505,15 @@ def three_function_bases(rng):
             ("three basis functions (three s shells)", three_s), ("three basis functions (one s shell with three columns)", [s3])]
 
 
+def nearly_normalised_shell(rng, l, sph=False):
+    """a contracted shell whose coefficients were rescaled so that its contraction norm is 1 up to a few 1e-6 (what 5-6 printed
+    decimals of a normalised contraction give)"""
+    base = rand_shell(rng, l, [], nprim=3, nseg=1, sph=sph, exp_lo=0.15, exp_hi=4.0).copy(via_update=False)
+    nc = float(np.asarray(base.copy(sph=False).make().norm_cont).ravel()[0])
+    delta = rng.choice([-1, 1]) * rng.uniform(2e-6, 8e-6)
+    return base.copy(coeffs=base.coeffs * nc * (1.0 + delta))
+
+
 def structural_families(run, transforms=True, lmax_twins=3, lmax_obj=2, ls_extreme=None, small=False):
     """(label, specs, transform | None): bases with special *structure* (not special numbers) that every array-valued function must
     treat like any other basis: a shell object listed twice, twin shells (same centre, l and number of segments), generalized shells
@@ -538,6 +552,22 @@ def structural_families(run, transforms=True, lmax_twins=3, lmax_obj=2, ls_extre
                 sh = sh.copy(coeffs=sh.coeffs[:, :2].copy())
             other = rand_shell(rng, (l + 1) % 2, [], nprim=2, nseg=1, exp_hi=10.0)
             out.append(("coefficient matrix of %s type" % kind, [sh, other], None))
+    # contractions that are normalised only to printing precision (tabulated coefficients quoted to 5-6 decimals): the contraction
+    # norm differs from 1 by 1e-7 ... 1e-5 and must still be applied
+    for k, l in enumerate((0, 1) if (quick or small) else (0, 1, 2)):
+        out.append(("contraction normalised to printing precision (norm_cont - 1 of order 1e-6)", [nearly_normalised_shell(rng, l, sph=bool(k % 2)),
+                    rand_shell(rng, (l + 1) % 2, [], nprim=2, nseg=1, exp_hi=10.0)], None))
+    # accidental exact zeros of one-dimensional factors: two p (or d) functions with equal exponent a at a distance R along an axis
+    # with R^2 = 1/a have a vanishing one-dimensional overlap factor along that axis (not by parity)
+    for k, (a_, R_) in enumerate(((1.0, 1.0), (0.25, 2.0), (4.0, 0.5))):
+        ax = k % 3
+        d_ = [0.0, 0.0, 0.0]
+        d_[ax] = R_
+        c0 = [0.25, -0.5, 0.125]
+        la, lb = (1, 1) if k < 2 else (1, 2)
+        s1 = ShellSpec(la, c0, [a_] if k else [a_, 0.6], [[1.0]] if k else [[0.7], [0.4]], sph=False)
+        s2 = ShellSpec(lb, [x + y for x, y in zip(c0, d_)], [a_], [[1.0]], sph=bool(k == 1))
+        out.append(("accidentally vanishing one-dimensional factor (a = %g, R = %g)" % (a_, R_), [s1, s2], None))
     # coinciding sizes: as many segmented contractions as (Cartesian) components, as many primitives as segments
     for k, (l, sph_) in enumerate(((1, False), (1, True), (0, False)) if not small else ((1, False),)):
         m = (l + 1) * (l + 2) // 2
@@ -574,7 +604,7 @@ def install_iodata_standin():
         return True
 
 
-def iodata_molecule(rng, lmax=3, nshell=None):
+def iodata_molecule(rng, lmax=3, nshell=None, omit_unused_cart=False):
     """(mol, specs): an object that `from_iodata` accepts — segmented shells of l <= lmax of both kinds on 2-3 atoms, with declared
     conventions: a random order of the Cartesian components for every l, a random order *and random signs* ('-c3' as in Molden
     files written by ORCA) of the pure functions — and the equivalent ShellSpecs (contractions not renormalised, as IODataShell)"""
@@ -616,6 +646,15 @@ def iodata_molecule(rng, lmax=3, nshell=None):
         shells.append(sh)
         specs.append(ShellSpec(l, list(atcoords[ic]), exps, co, sph=(kind == "p"), cart=[list(c) for c in cart_of[l]],
                                sphord=list(sph_of[l]) if l in sph_of else None, unit_norm=False, icenter=ic))
+
+    if omit_unused_cart:
+        # a conventions table that lists Cartesian orders only for the angular momenta that occur as Cartesian shells (iodata does
+        # this for "6D 7F"-type files); the library then falls back to its default order for the others
+        used_c = {int(sh.angmoms[0]) for sh in shells if sh.kinds[0] == "c"}
+        for l in range(lmax + 1):
+            if l not in used_c and (l, "c") in conv:
+                del conv[(l, "c")]
+                specs = [sp_.copy(cart=None) if sp_.l == l else sp_ for sp_ in specs]
 
     class Basis:
         pass
